@@ -43,6 +43,17 @@ def patch_secrets():
     return det
 
 
+class HandlerCall:
+    """An API call made by a handler itself (echo, disconnect from inside the message handler)."""
+
+    def __init__(self, name, args, t):
+        self.name, self.args = name, args
+        self.done, self.exc, self.result = False, None, None
+        self.t_start, self.t_end = t, None
+        self.sess = None
+        self.in_handler = True
+
+
 class AppLog:
     """Application handlers: log every event; scripted connect outcome and handler faults."""
 
@@ -63,6 +74,20 @@ class AppLog:
         self.busy = 0                    # handlers currently running (incl. their delay)
         self.delay = {}                  # event -> virtual seconds the handler takes (it logs
                                          # the event first, then sleeps: other causes may race)
+        self.react = None                # optional callback(event, sid, data) -> actions the
+                                         # handler itself performs: ('send', payload, rec) |
+                                         # ('disconnect', rec); rec is a HandlerCall
+        self.can_react = False
+
+    def _reactions(self, event, sid, data):
+        if self.react is None or not self.can_react:
+            return []
+        return self.react(event, sid, data) or []
+
+    def _reacted(self, rec, exc):
+        rec.exc = exc
+        rec.done = True
+        rec.t_end = self.world.clock.now
 
     def _connect(self, sid, environ):
         self.events.append((self.world.clock.now, 'connect', sid, None))
@@ -115,8 +140,18 @@ class AppLog:
         """legacy_disconnect: register the documented one-argument disconnect handler; the reason
         is then not visible to the log (recorded as None).  sleep: blocking sleep of the world
         (threaded world) used for handler delays."""
+        self.can_react = bool(coroutine_handlers) or not asyncio.iscoroutinefunction(server.send)
         if coroutine_handlers:
-            import asyncio
+            async def react(sid, acts):
+                for act in acts:
+                    try:
+                        if act[0] == 'send':
+                            await server.send(sid, act[1])
+                        else:
+                            await server.disconnect(sid)
+                        self._reacted(act[-1], None)
+                    except Exception as e:      # noqa (an application catching its own errors)
+                        self._reacted(act[-1], e)
 
             async def connect(sid, environ):
                 self.busy += 1
@@ -133,7 +168,9 @@ class AppLog:
             async def message(sid, data):
                 self.busy += 1
                 try:
-                    return self._message(sid, data)
+                    r = self._message(sid, data)
+                    await react(sid, self._reactions('message', sid, data))
+                    return r
                 finally:
                     try:
                         if self.delay.get('message'):
@@ -183,9 +220,28 @@ class AppLog:
                 nap('connect')
                 return r
 
+            def react(sid, acts):
+                if not acts:
+                    return
+                self.busy += 1
+                try:
+                    for act in acts:
+                        try:
+                            if act[0] == 'send':
+                                server.send(sid, act[1])
+                            else:
+                                server.disconnect(sid)
+                            self._reacted(act[-1], None)
+                        except Exception as e:      # noqa
+                            self._reacted(act[-1], e)
+                finally:
+                    self.busy -= 1
+
             def message(sid, data):
                 try:
-                    return self._message(sid, data)
+                    r = self._message(sid, data)
+                    react(sid, self._reactions('message', sid, data))
+                    return r
                 finally:
                     nap('message')
 
